@@ -294,7 +294,19 @@ func (w *cwWorld) cloneFor(node *zoneNode, rc *h.Rng) *cwWorld {
 	for k, v := range w.born {
 		c.born[k] = v
 	}
-	c.emitted = append(c.emitted, w.emitted...)
+	// what the dominant chains still owe this node's chain: the ETXs of its blocks from the last region-order block
+	// (inclusive: a block's own ETXs are rolled up by the next coincident block) to its head - recomputed from the
+	// node's chain, which may be shorter than the chain of the world being cloned
+	var blocks []*types.WorkObject
+	for b := node.hc.GetBlockByHash(node.hc.CurrentHeader().Hash()); b != nil && !node.hc.IsGenesisHash(b.Hash()); b = node.hc.GetBlockByHash(b.ParentHash(common.ZONE_CTX)) {
+		blocks = append(blocks, b)
+		if _, order, err := node.hc.CalcOrder(b); err == nil && order < common.ZONE_CTX {
+			break
+		}
+	}
+	for i := len(blocks) - 1; i >= 0; i-- {
+		c.emitted = append(c.emitted, blocks[i].OutboundEtxs()...)
+	}
 	return c
 }
 
